@@ -221,10 +221,14 @@ async fn fn_name(
             continue;
         }
 
-        for tile_id in entry.tile_id_range() {
-            #[cfg(feature = "verif")]
-            verif_counters::EXPANDED_TILES.fetch_add(1, std::sync::atomic::Ordering::Relaxed);
+        // (one update per entry, before its run is expanded: cheap, and an observer sees the demand in time)
+        #[cfg(feature = "verif")]
+        verif_counters::EXPANDED_TILES.fetch_add(
+            u64::from(entry.run_length),
+            std::sync::atomic::Ordering::Relaxed,
+        );
 
+        for tile_id in entry.tile_id_range() {
             if !filter_range.contains(&tile_id) {
                 continue;
             }
